@@ -358,13 +358,13 @@ def ref_union_decode(ti, d, tvmap=None, o=PLAIN):
     members = [(a, tinfo.info(a, tvmap)) for a in ti.args]
     scalar_members = [(a, mi) for a, mi in members if mi.kind in ("int", "float", "bool", "str", "none")
                       and mi.type in SCALARS]
-    # 1. exact type of a basic scalar member: returned unchanged, no coercion
-    for a, mi in scalar_members:
-        if type(d) is mi.type:
-            return d
-    # 2. other members in declaration order, first that accepts
+    # 1+2. members in declaration order: a basic scalar member matches by exact type only and returns the
+    #      input unchanged (no cross-coercion between int, float, bool, str and null); any other member is
+    #      tried and the first that accepts wins
     for a, mi in members:
         if (a, mi) in scalar_members:
+            if type(d) is mi.type:
+                return d
             continue
         try:
             return ref_decode(a, d, tvmap, o)
